@@ -158,8 +158,14 @@ fn run(prop: &str, tier: Tier, replay: Option<String>) -> i32 {
     }
     let parts = parts_for(prop, tier);
     if !parts.is_empty() {
+        // Quick: B = 0,1,2 always complete in seconds; where B = 2 is cheap a third deviation is
+        // attempted under a short wall cap (evidence reports the largest *completed* bound and, if
+        // the cap cut a round, where). Thorough: one more deviation under a 20 minute cap.
+        let cheap = matches!(prop, "C03" | "C05" | "C18");
         let bounds = match tier {
+            Tier::Quick if cheap => vec![0, 1, 2, 3],
             Tier::Quick => vec![0, 1, 2],
+            Tier::Thorough if cheap => vec![0, 1, 2, 3, 4],
             Tier::Thorough => vec![0, 1, 2, 3],
         };
         let spec = Spec {
@@ -167,7 +173,7 @@ fn run(prop: &str, tier: Tier, replay: Option<String>) -> i32 {
             level: "model_checking",
             tier,
             bounds,
-            wall_cap: Duration::from_secs(if tier == Tier::Quick { 45 } else { 1200 }),
+            wall_cap: Duration::from_secs(if tier == Tier::Quick { 25 } else { 1200 }),
             rule: "every execution of the real tarpc code (client dispatch + callers, or server channel + request stream + gated handlers) under the harness-owned scheduler/transport/clock, for every listed configuration, with at most `bound_completed` deviations from the canonical schedule; distinct_nontrivial counts distinct trace hashes among executions in which the property's antecedent occurred".into(),
             assumptions: vec![
                 "tokio mpsc/oneshot, futures Abortable and tokio-util DelayQueue internals are trusted".into(),
